@@ -115,6 +115,7 @@ package keymap
 //@   ensures [returns-active] len(result2) > 0 ==> result0 == m.active
 //@   ensures @C03 [nothing-kept-once-resolved] !result1 && len(result2) > 0 ==> len(m.prefixed.Action) == 0 && !m.prefixed.Macro
 //@   ensures [no-keys-no-command] len(result2) == 0 ==> len(result0.Action) == 0 && !result0.Macro && !result1
+//@   ensures [no-keys-running-command-kept] len(result2) == 0 ==> m.active == old(m.active)
 //@   ensures [reads-something] typed ==> (len(result2) == 0 <==> len(u) == 0)
 //@   ensures @C05 [whole-buffer-prefix-waits] typed && len(u) > 0 && all(j, 1, len(u) + 1, bprefix(binds, u[:j])) ==> result1
 //@   ensures [shorter-were-prefixes] typed ==> all(j, 1, len(result2), bprefix(binds, result2[:j]))
@@ -187,3 +188,14 @@ package keymap
 //@   trusted parses the user's inputrc files into the engine's own configuration (inputrc.UserDefault with application options, built-in binds): writes only the engine's mode fields and that configuration object and its tables
 //@   requires m != nil && m.config != nil
 //@   assigns m.main, m.local, m.config.all, anymapof("map[string]interface{}"), anymapof("map[string]map[string]inputrc.Bind"), anymapof("map[string]inputrc.Bind")
+
+// InputIsTerminator is how abort decides whether to end the call with ErrInterrupt. With no key pending (the
+// normal case: abort's own key has been consumed) the answer is "the command being run was dispatched as
+// abort"; it must not depend on what dispatching an empty key stack returns (regression of fix 3ddca77,
+// repaired: without this C-g / C-c never interrupted Readline).
+//@ func (*Engine).InputIsTerminator
+//@   props C11 C03 C01
+//@   terminates
+//@   requires m != nil && m.keys != nil
+//@   assigns m.active, m.prefixed, m.keys.buf, m.keys.macroKeys
+//@   ensures [running-abort-is-a-terminator] old(len(m.keys.buf)) == 0 && old(len(m.keys.macroKeys)) == 0 ==> (result <==> old(m.active.Action) == "abort")
